@@ -403,6 +403,12 @@ func (w *World) checkLockTenure(ev *simrt.Event, cls string) {
 	}
 }
 
+// sparseObserve: see the handle-view call site. Never in sequential
+// histories, whose oracles are defined per operation.
+func (w *World) sparseObserve() bool {
+	return !w.Sequential && simrt.Hash4(w.Spec.Seed, "sparse-observe", 0, 0)%3 == 0
+}
+
 // checkLiveFileRemoved (C16): "Close and Clean remove only stale files". A
 // file is in use, not stale, while the operation that created it is still
 // running in a live process, or while the Addition that created it is open.
